@@ -9,7 +9,7 @@ TRACE_CFG = "MarkTrace.cfg"
 RULE = ("random fonts with bases, marks, ligatures (Latin, optionally Arabic, or Devanagari triggering abvm/blwm), anchors "
         "from {top, bottom, ogonek, top.alt, center} as base / '_'-prefixed / numbered ligature / NULL component anchors, "
         "several per glyph, fractional coordinates with ties, mark-to-mark anchors, unpaired classes, with or without "
-        "public.openTypeCategories, GSUB alternates, languagesystems, groupMarkClasses on/off, quantisation {1,5}; TLC "
+        "public.openTypeCategories, GSUB alternates, languagesystems, groupMarkClasses on/off, quantisation {1,5}; one case in five hands the same writer instance to further fonts; TLC "
         "evaluates EVERY (language system, kind, anchor bearer, component, mark) item on the compiled GPOS; non-trivial = "
         "the font has at least one item with a non-empty candidate set; distinct by source digest")
 ASSUMPTIONS = ["OpenType semantics: within a lookup the first subtable covering both glyphs applies, across lookups the last applying one wins",
@@ -28,15 +28,24 @@ def cases(tier, seed):
     for k in range(n):
         c = layout_gen.anchors_font(rng) if rng.random() < 0.85 else layout_gen.mark_conflict_font(rng)
         c.update({"cid": f"c06-{seed}-{k}", "lib": rng.choice(["ufoLib2", "defcon"]), "writers": ["mark"]})
+        if k % 5 == 4:
+            # the same writer instance then serves one or two other fonts (same options)
+            c["then"] = []
+            for j in range(rng.randint(1, 2)):
+                d = layout_gen.anchors_font(rng)
+                d.update({"cid": f"c06-{seed}-{k}+{j + 1}", "lib": c["lib"], "writers": ["mark"], "q": c.get("q", 1), "markOpts": c.get("markOpts")})
+                c["then"].append(d)
         out.append(c)
     return out
 
 
 def execute(case):
-    f2, fea, data = layout_exec.compile_layout(case)
-    rec = layout_exec.mark_record(case, f2, case["cid"])
-    rec["_fea"] = fea
-    return [rec]
+    recs = []
+    for c, f2, fea in layout_exec.compile_sequence(case):
+        rec = layout_exec.mark_record(c, f2, c["cid"])
+        rec["_fea"] = fea
+        recs.append(rec)
+    return recs
 
 
 def nontrivial(rec):
